@@ -327,7 +327,23 @@ def run_case(case):
     if fam == "rule":
         a, b = interval(case["ival"], rng)
         COL.sample({"family": fam, "n": case["n"], "interval": [a, b]}, limit=3)
-        probe.attempt(ig.gauleg, a, b, case["n"])
+        res, e = probe.attempt(ig.gauleg, a, b, case["n"])
+        if e is None and rng.random() < .5:
+            # the returned arrays belong to the caller: rescale them in place (as one does to map a [-1,1] rule onto an
+            # interval), then ask for the same rule again, directly and through an integrator - all judged by the wrappers
+            x, w = res
+            x *= 3.0
+            x += 1.0
+            w[:] = 0.0
+            probe.attempt(ig.gauleg, a, b, case["n"])
+            r1, e1 = probe.attempt(ig.gauleg, -1.0, 1.0, case["n"])
+            if e1 is None:
+                r1[0][:] = 5.0
+                r1[1][:] = -1.0
+            qg, e2 = probe.attempt(ig.QGauss, case["n"])
+            if e2 is None:
+                case["_pos"], case["_prev_n"], case["_hist"] = 0, None, [["func-after-mutation", case["n"]]]
+                probe.attempt(qg.integrate, [0.25, 2.0], FUNCS[0], npts=case["n"])
         return
     if fam in ("history-func", "history-data"):
         first = int(rng.choice([1, 2, 3, 5, 10, 30, 100])) if rng.random() < .8 else None
